@@ -6,7 +6,9 @@ claim('C05',
       'test is shifted (T1); no criterion raises by construction on its documented domain (K1); closed-form measures have '
       'no unguarded 0*log 0 (F1); tolerance signs keep each decision on the sound side at the defaults (T2); no threshold is tighter '
       'than the precision class of the compared value (sqrt of a spectrum is in the 1e-8 class, T3); the feasibility verdict of the '
-      'symmetric-extension SDP is "not infeasible", never "status == optimal" (SV1). That eps-class tolerances are large enough and '
+      'symmetric-extension SDP is "not infeasible", never "status == optimal" (SV1); a clamp that protects a square root sits inside it and '
+      'sqrt(c*(1-P)) of a purity is clamped (F5, F2); multipartite reshapes list the subsystems in ascending order on both sides (AR2, 15 '
+      'sites); a module-level memo is keyed on every input of the stored value (MC1: no history-dependent verdict). That eps-class tolerances are large enough and '
       'the solver behaviour are value-level and NOT decided.',
       'Trusted: CPython ast; the enumerated guard idioms of F1; the decision-function table in sa/props.py. A construct '
       'outside the enumerated idioms is reported as undecided/analysis error, never as a violation.',
@@ -17,7 +19,8 @@ claim('C10',
       'resolved path the result is a function of arguments and seed only - no ambient draw (S3), every nested seeded '
       'callee receives a seed-derived value in its seed slot (S2), every generator draw has a seed-derived receiver on '
       'every path (S4, flow-sensitive must-taint). Of the validity clause one structural part is decided: a complex-capable array composed '
-      'with its own transpose in the random generators is conjugated (HM1: Hermitian outputs). The other validity clauses are value-level '
+      'with its own transpose in the random generators is conjugated (HM1: Hermitian outputs); rand_pauli never writes into the F2 of an '
+      'operator it has already built (O4: its lazily computed sign would go stale). The other validity clauses are value-level '
       'and NOT decided.',
       'Unresolvable callees (model(), user callables) are not followed; NumPy/LAPACK determinism assumed.',
       'structured forward must-taint dataflow over resolved call bindings (ast)',
@@ -29,7 +32,9 @@ claim('C11',
       'gate object too (D3); the returned bit string is the big-endian expansion matching the C-order flattening (M1); a computed axis '
       'permutation is not undone by re-applying it (M2); the Born-rule / collapse structure: probabilities are the squared modulus summed '
       'over the unmeasured groups, the measured qubits are the kept groups, the outcome is drawn with p=prob, the collapsed state copies the '
-      'selected slice onto a zero buffer and divides by sqrt(prob[outcome]) of the same outcome (M3). '
+      'selected slice onto a zero buffer and divides by sqrt(prob[outcome]) of the same outcome, and the outcome index is decoded over the '
+      'sizes of the kept groups at their positions (M3); the collapse never writes into the caller\'s state (PU1); the torch execution path '
+      'runs a measure gate through MeasureGate.forward like the NumPy path (D1). '
       'Numerical normalisation and repeatability over histories are value-level and NOT decided.',
       'Trusted: NumPy API contract for linalg.norm(axis=); ast name resolution.',
       'ast def-use chase of axis arguments through tuple-returning callees; must-taint seed dataflow',
@@ -78,12 +83,14 @@ claim('C02',
       'Decides three necessary conditions of "locally onto": the allocated parameter count is >= the manifold dimension for every '
       '2<=dim<=12, 1<=rank<=dim and equal to it for the charts the property lists as exact (W4); theta is written into a Gell-Mann '
       'field that the following .imag/.real projection keeps - a parameter placed only in discarded fields makes the map constant '
-      '(G2, symbolic field typing of concat segments); theta reaches the functional at all (W1). Full rank of the Jacobian is '
+      '(G2, symbolic field typing of concat segments; segments that are not aligned with a field are decided by containment for d = 2..8); '
+      'on every condition-consistent branch path the column slices theta[:, a:b] partition the parameter vector - no block is read twice, '
+      'none is skipped (W7); theta reaches the functional at all (W1). Full rank of the Jacobian is '
       'value-level and NOT decided.',
       'W4 is a bounded grid check of exact polynomials, not a proof for all dim; the manifold-dimension table is taken from the '
       'property statement.',
       'symbolic width typing of Gell-Mann coefficient vectors against the record layout [S|A|D|I]; exact polynomial parameter counts',
-      'DESIGN.md 4 (W, G), 5 C02')
+      'DESIGN.md 4 (W, W7, G), 5 C02')
 claim('C08',
       'Decides the table clauses of "conversions are mutually inverse": all literal letter / base-4 digit / (x,z) bit / phase-code '
       'tables of numqi.gate._pauli compose to identities, single and batched paths use the same tables, full_matrix / '
@@ -92,7 +99,9 @@ claim('C08',
       'bits are split / recombined consistently and reduced mod 4 (E2); the group law of PauliOperator: the product overlap is z(left).x(right) '
       'in the decoder\'s X^x Z^z convention and the literal carry arithmetic equals c1+c2+2*overlap mod 4 on all 32 bit combinations, '
       'inverse() equals -c + 2 x.z on all 8, commutate_with is the symplectic form (E4: the checker\'s own integer evaluator on the literal '
-      'formulas); rand_pauli fixes hermiticity through the low phase bit in both arms (E3). unpackbits byte order and the '
+      'formulas); rand_pauli fixes hermiticity through the low phase bit in both arms (E3); memoised fields (sign, string, matrices) are '
+      'never copied from another operator and F2 is never written from outside the class (H6, O4); conversions that keep the data on the '
+      'last axis slice with an Ellipsis (SH4). unpackbits byte order and the '
       'multi-qubit batch paths are value-level and NOT decided.',
       'Trusted: symplectic convention X=(1,0), Z=(0,1), Y=(1,1); closed constant folding of the literal tables (sa/tables.py).',
       'ast extraction + constant folding of literal encoding tables; commuting-diagram check on the 4-letter / 4-phase domain',
@@ -117,7 +126,8 @@ claim('C13',
       'forward contracts it once plain and once conjugated, and the literal index lists pair ket-rank with X, bra-rank with X*, keep '
       'the ensemble index and trace exactly one subsystem (V1); set_density_matrix re-computes every state-derived attribute on every path '
       '(V2: no early return, no one-armed conditional store - a re-used model never evaluates the previous state); the polar Stiefel map '
-      'factorises exactly M^dagger M (W5: no regularisation term, so the mixing matrix is an isometry at every parameter scale). Ranges, LU invariance, monotone relations and loss >= closed form are '
+      'factorises exactly M^dagger M (W5: no regularisation term, so the mixing matrix is an isometry at every parameter scale); clamps sit '
+      'inside square roots and the pure-state concurrence clamps its radicand (F5, F2). Ranges, LU invariance, monotone relations and loss >= closed form are '
       'value-level and NOT decided; for the GME model only (a),(b) of V1 are decided (computed index lists).',
       'Trusted: Stiefel point is an isometry (C01 territory).',
       'ast typing of literal contraction index lists + guard reaching-definitions with interval analysis',
@@ -190,7 +200,9 @@ claim('C06',
       'partial-transpose constraint under use_ppt, linking equalities, lambda>=0 and sum(lambda)=1 (C1: dropping one enlarges the '
       'feasible set and breaks beta_k-ext+PPT <= beta_PPT / beta_CHA <= beta_k-ext); a norm of an explicitly batched array names its vector '
       'axis (N2: a batch gets per-item Gell-Mann norms); subsystem roles keep their order through every resolved call - dim0,dim1 -> '
-      'dimA,dimB (AR1, 14 call sites: the inner CHA model is built for the same factorisation the outer tests use). Threshold exactness, interpolation distance '
+      'dimA,dimB (AR1, 14 call sites: the inner CHA model is built for the same factorisation the outer tests use); the CHA boundary history '
+      'only takes values from an LP solve executed after the last re-ordering of the product states (C2); the cached symmetric-extension '
+      'tables are not modified in place (O1); the batched boundary formula keeps the batch axis aligned (SH1). Threshold exactness, interpolation distance '
       'and the numerical beta inequalities are eigenvalue / solver quantities and NOT decided.',
       'Narrow structural claim. Trusted: ascending order of eigvalsh; cvxpy operator semantics (>> is PSD).',
       'ast permutation algebra on literal transposes; tag propagation (lower/upper) through max/min; constraint-kind inventory of list-building statements',
@@ -238,7 +250,8 @@ claim('C09',
 claim('C14',
       'A thin clause-level claim. Decides structural necessary conditions of the table constructors: the left regular form places the 1 '
       'of L(g) at [g*h, h] - the homomorphic orientation (GR1); the literal Klein-four table is a group table, checked exhaustively on the '
-      'literal (Latin square, identity, involutions, 64 associativity triples; GR2); cyclic and multiplicative tables use (i+j) mod n over '
+      'literal (Latin square, identity, involutions, 64 associativity triples) and the literal quaternion seed equals the quaternion products '
+      '(GR2); the irrep reduction conjugates the transposed factor of its change of basis (HM2); cyclic and multiplicative tables use (i+j) mod n over '
       'arange(n) / (x*y) mod n over exactly the units with a lookup built from the same element list (GR3); symmetric, alternating and '
       'dihedral tables compose permutations as perm[:, perm] and look the composite up in a dictionary enumerating the composed list; the '
       'alternating filter keeps even cycle type (GR4); hook lengths are arm + leg + 1 on the cells of the mask with dimension exponents '
